@@ -248,6 +248,19 @@ where
 
         // after the request, evaluate if we have additional queries to perform
         let result = match records {
+            #[cfg(feature = "__dnssec")]
+            Ok(Records::CnameChain {
+                next: future,
+                alias_secure,
+                ..
+            }) => match future.await {
+                Ok(lookup) => client.cname(lookup, query),
+                Err(e) if is_dnssec && !alias_secure => {
+                    client.cache(query, Err(without_secure_proofs(e)))
+                }
+                Err(e) => client.cache(query, Err(e)),
+            },
+            #[cfg(not(feature = "__dnssec"))]
             Ok(Records::CnameChain { next: future, .. }) => match future.await {
                 Ok(lookup) => client.cname(lookup, query),
                 Err(e) => client.cache(query, Err(e)),
@@ -303,6 +316,13 @@ where
 
         // initial ttl is what CNAMES use for min usage
         const INITIAL_TTL: u32 = MAX_TTL;
+
+        #[cfg(feature = "__dnssec")]
+        let alias_secure = response
+            .answers
+            .iter()
+            .filter(|r| r.record_type() == RecordType::CNAME)
+            .all(|r| r.proof == Proof::Secure);
 
         // need to capture these before the subsequent and destructive record processing
         let soa = response.soa().as_ref().map(RecordRef::to_owned);
@@ -497,6 +517,8 @@ where
                     preserved_records,
                     depth.nest(),
                 )),
+                #[cfg(feature = "__dnssec")]
+                alias_secure,
                 #[cfg(test)]
                 preserved_records,
             })
@@ -566,9 +588,44 @@ enum Records<F> {
     /// Future lookup for recursive cname records
     CnameChain {
         next: F,
+        /// Whether every CNAME of this hop was validated as Secure
+        #[cfg(feature = "__dnssec")]
+        alias_secure: bool,
         #[cfg(test)]
         preserved_records: Vec<Record>,
     },
+}
+
+/// A denial reached through an alias that was not validated as Secure says nothing authenticated
+/// about the name that was asked: the records that travel with the error lose their Secure proof.
+#[cfg(feature = "__dnssec")]
+fn without_secure_proofs(err: NetError) -> NetError {
+    let NetError::Dns(DnsError::NoRecordsFound(mut no_records)) = err else {
+        return err;
+    };
+
+    if let Some(soa) = no_records.soa.as_mut() {
+        if soa.proof == Proof::Secure {
+            soa.proof = Proof::Insecure;
+        }
+    }
+
+    if let Some(authorities) = no_records.authorities.take() {
+        no_records.authorities = Some(
+            authorities
+                .iter()
+                .cloned()
+                .map(|mut record| {
+                    if record.proof == Proof::Secure {
+                        record.proof = Proof::Insecure;
+                    }
+                    record
+                })
+                .collect(),
+        );
+    }
+
+    no_records.into()
 }
 
 // see also the lookup_tests.rs in integration-tests crate
